@@ -101,7 +101,10 @@ protected:
     static int aligned_allocator(void* alignment, RangeSize size, void** ptr)
     {
         assert(size.min > 0 && size.max >= size.min);
-        int err = ::posix_memalign(ptr, (size_t)alignment, (size_t)size.max);
+        // posix_memalign() rejects alignments smaller than sizeof(void*)
+        size_t align = (size_t)alignment;
+        if (align < sizeof(void*)) align = sizeof(void*);
+        int err = ::posix_memalign(ptr, align, (size_t)size.max);
         if (err) {
             errno = err;
             return -1;
